@@ -29,6 +29,7 @@ mod c19;
 mod c05;
 mod c20;
 mod e2;
+mod e3;
 
 use common::*;
 
@@ -82,6 +83,7 @@ fn main() {
         "C20" => c20::run(&ctx),
         "C02" | "C06" | "C07" => e2::run(&ctx, &id),
         "C15" => e2::run(&ctx, "C15"),
+        "C08" => e3::run_c08(&ctx),
         _ => machinery_error(format!("unknown property id {id}")),
     }
 }
